@@ -43,6 +43,7 @@ pub fn dispatch(name: &str) -> bool {
         "h_c03::commit_reopen" => h_c03::commit_reopen(),
         "h_c04::update_read" => h_c04::update_read(),
         "h_c04::array_chain" => h_c04::array_chain(),
+        "h_c04::resubmit_in_conflict" => h_c04::resubmit_in_conflict(),
         "h_c15::stage_roundtrip" => h_c15::stage_roundtrip(),
         "h_c10::junk_item" => h_c10::junk_item(),
         "h_c10::damaged_item" => h_c10::damaged_item(),
